@@ -206,4 +206,165 @@ theorem strIterAll_enc (post : List Char) :
       rw [hassoc, ih (pre ++ [c]) (acc ++ [utf8EncodeChar c]) f (by simp at hf; omega)]
       simp
 
+/-! ### the `for` loop with its loop data -/
+
+/-- The loop data the body must see at pass `k` (0-based) of a loop over `n` items. -/
+def rowData (k n : Nat) : LoopData := ⟨k, k == 0, k + 1 == n, n⟩
+
+theorem loopInit_eq (n : Nat) : loopInit n = rowData 0 n := by
+  unfold loopInit rowData
+  simp only [LoopData.mk.injEq, true_and]
+  refine ⟨by simp, ?_⟩
+  cases h : (n == 1) <;> cases h2 : (0 + 1 == n) <;> simp_all
+
+theorem advance_rowData (k n : Nat) : (rowData k n).advance = rowData (k + 1) n := by
+  simp [LoopData.advance, rowData]
+
+/-- Expected passes of a string loop from pass `k` on: one per char, item = its encoding. -/
+def rowsFrom (k n : Nat) : List Char → List (List Nat × LoopData)
+  | [] => []
+  | c :: cs => (utf8EncodeChar c, rowData k n) :: rowsFrom (k + 1) n cs
+
+theorem rowsFrom_length (k n : Nat) (cs : List Char) : (rowsFrom k n cs).length = cs.length := by
+  induction cs generalizing k with
+  | nil => rfl
+  | cons c cs ih => simp [rowsFrom, ih]
+
+theorem rowsFrom_get (n : Nat) (cs : List Char) :
+    ∀ (k i : Nat) (h : i < cs.length),
+      (rowsFrom k n cs)[i]? = some (utf8EncodeChar cs[i], rowData (k + i) n) := by
+  induction cs with
+  | nil => intro k i h; cases h
+  | cons c cs ih =>
+    intro k i h
+    cases i with
+    | zero => simp [rowsFrom]
+    | succ i =>
+      simp only [rowsFrom, List.getElem?_cons_succ, List.getElem_cons_succ]
+      rw [ih (k + 1) i (by simpa using h)]
+      congr 3
+      omega
+
+/-- Passes of a loop over an exactly-sized iterator, from pass `k` on. -/
+theorem forLoopRows_started (n : Nat) :
+    ∀ (rem fuel k : Nat) (acc : List LoopData), rem < fuel →
+      forLoopRows fuel rem (rowData k n) true acc =
+        .ok (acc ++ (List.range rem).map fun j => rowData (k + 1 + j) n) := by
+  intro rem
+  induction rem with
+  | zero =>
+    intro fuel k acc hf
+    cases fuel with
+    | zero => omega
+    | succ f => simp [forLoopRows]
+  | succ rem ih =>
+    intro fuel k acc hf
+    cases fuel with
+    | zero => omega
+    | succ f =>
+      simp only [forLoopRows, Nat.succ_ne_zero, if_false, if_true, Nat.add_sub_cancel,
+        advance_rowData]
+      rw [ih f (k + 1) _ (by omega), List.range_succ_eq_map]
+      have hfun : ((fun j => rowData (k + 1 + j) n) ∘ Nat.succ) = fun j => rowData (k + 1 + 1 + j) n := by
+        funext j
+        simp only [Function.comp, Nat.succ_eq_add_one]
+        congr 1
+        omega
+      simp only [List.map_cons, List.map_map, List.append_assoc, List.singleton_append, hfun]
+
+theorem loopRows_eq (n : Nat) : loopRows n = .ok ((List.range n).map fun j => rowData j n) := by
+  unfold loopRows
+  cases n with
+  | zero => simp [forLoopRows]
+  | succ m =>
+    rw [forLoopRows]
+    simp only [Nat.succ_ne_zero, if_false, Nat.add_sub_cancel, loopInit_eq, Bool.false_eq_true,
+      List.nil_append]
+    rw [forLoopRows_started (m + 1) m (m + 1) 0 _ (by omega), List.range_succ_eq_map]
+    have hfun : ((fun j => rowData j (m + 1)) ∘ Nat.succ) = fun j => rowData (0 + 1 + j) (m + 1) := by
+      funext j
+      simp only [Function.comp, Nat.succ_eq_add_one]
+      congr 1
+      omega
+    simp only [List.map_cons, List.map_map, List.singleton_append, hfun]
+
+theorem charsCount_enc (cs : List Char) : charsCount (utf8Encode cs) = cs.length := by
+  induction cs with
+  | nil => rfl
+  | cons c cs ih =>
+    obtain ⟨b, tail, hsh, _, hnc, htail⟩ := enc_shape c
+    rw [utf8Encode_cons, hsh]
+    unfold charsCount at ih ⊢
+    rw [List.cons_append, List.filter_cons, List.filter_append, List.length_cons]
+    have hb : (!(decide (0x80 ≤ b) && decide (b < 0xC0))) = true := by
+      unfold isCont at hnc
+      simp only [Bool.not_eq_true', Bool.and_eq_false_iff, decide_eq_false_iff_not]
+      omega
+    have ht : tail.filter (fun b => !(decide (0x80 ≤ b) && decide (b < 0xC0))) = [] := by
+      rw [List.filter_eq_nil_iff]
+      intro t hmem
+      have := htail t hmem
+      unfold isCont at this
+      simp only [Bool.not_eq_true, Bool.not_eq_false', Bool.and_eq_true, decide_eq_true_eq]
+      exact this
+    rw [if_pos hb, List.length_cons, List.length_append, ht, ih]
+    simp
+
+theorem strIterNextR_enc (pre : List Char) (c : Char) (post : List Char) :
+    strIterNextR (utf8Encode (pre ++ c :: post)) (utf8Encode pre).length (c :: post).length =
+      .ok (some (utf8EncodeChar c, (utf8Encode (pre ++ [c])).length, post.length)) := by
+  unfold strIterNextR
+  have hpos := enc_length_pos c
+  have hlen : ¬ (utf8Encode pre).length ≥ (utf8Encode (pre ++ c :: post)).length := by
+    rw [utf8Encode_append, utf8Encode_cons]
+    simp only [List.length_append]
+    omega
+  rw [if_neg hlen, if_neg (by simp), strIterNext_enc]
+  simp [Res.map, Res.bind]
+
+/-- The string loop as the VM runs it, from the middle of the text on. -/
+theorem strForLoop_started (n : Nat) (post : List Char) :
+    ∀ (pre : List Char) (fuel k : Nat) (acc : List (List Nat × LoopData)), post.length < fuel →
+      strForLoop (utf8Encode (pre ++ post)) fuel (utf8Encode pre).length post.length
+        (rowData k n) true acc = .ok (acc ++ rowsFrom (k + 1) n post) := by
+  induction post with
+  | nil =>
+    intro pre fuel k acc hf
+    cases fuel with
+    | zero => omega
+    | succ f => simp [strForLoop, rowsFrom]
+  | cons c post ih =>
+    intro pre fuel k acc hf
+    cases fuel with
+    | zero => omega
+    | succ f =>
+      rw [strForLoop]
+      rw [if_neg (by simp), strIterNextR_enc]
+      simp only [Res.bind, if_true, advance_rowData]
+      have hassoc : pre ++ c :: post = (pre ++ [c]) ++ post := by simp
+      rw [hassoc, ih (pre ++ [c]) f (k + 1) _ (by simp at hf; omega)]
+      simp [rowsFrom]
+
+/-- The whole string loop: one pass per char, the item is that char's encoding, and the loop
+data count chars (`loop.length` = number of chars, `loop.last` on the last char only). -/
+theorem strFor_enc (cs : List Char) :
+    strFor (utf8Encode cs) = .ok (rowsFrom 0 cs.length cs) := by
+  unfold strFor
+  rw [charsCount_enc, loopInit_eq]
+  cases cs with
+  | nil => simp [strForLoop, rowsFrom]
+  | cons c post =>
+    rw [strForLoop]
+    rw [if_neg (by simp)]
+    have h := strIterNextR_enc [] c post
+    simp only [List.nil_append, utf8Encode_nil, List.length_nil] at h
+    rw [h]
+    simp only [Res.bind, Bool.false_eq_true, if_false]
+    have h2 := strForLoop_started (c :: post).length post [c] (c :: post).length 0
+      [(utf8EncodeChar c, rowData 0 (c :: post).length)] (by simp)
+    simp only [List.singleton_append] at h2
+    simp only [List.nil_append]
+    rw [h2]
+    simp [rowsFrom]
+
 end Tera.Index
